@@ -3,6 +3,7 @@ counters by that entry's weight with the right sign and origin.
 
 Works on the per-path traces of the abstract interpreter: the final value written to a counter
 is a term over the counter's old value; it is decomposed into a signed sum ("linear form")."""
+from collections import defaultdict
 from .core import RuleResult, CheckFailure
 from .roles import named
 from .kernel import norm
@@ -81,36 +82,80 @@ def _paths(ctx, nid, **kw):
     return ps
 
 
-def _ret_components(ret):
+def _ret_components(ret, ctx=None):
+    """Components of a returned tuple, or of a returned in-crate struct (then with field names)."""
     if isinstance(ret, tuple) and ret and ret[0] == 'tuple':
         return list(ret[1])
+    if ctx is not None and isinstance(ret, tuple) and ret and ret[0] == 'aggr' and norm(str(ret[1])) in ctx.prog.adts:
+        return list(ret[3])
     return None
 
 
+def _ret_keys(ctx, nid, n):
+    """How a caller selects component i of nid's result: tuple index, or field name of the returned struct."""
+    b = ctx.prog.bodies[nid]
+    adt = ctx.prog.adts.get(norm(b.locals[0]['ty'].get('adt') or ''))
+    if adt and adt['kind'] == 'Struct':
+        names = [f['name'] for f in adt['variants'][0]['fields']]
+        if len(names) == n:
+            return names
+    return list(range(n))
+
+
+INT_TYS = ('u8', 'u16', 'u32', 'u64', 'u128', 'usize')
+
+
+def _is_int_record(ctx, ty):
+    """(u64, u64)-like tuple or an in-crate struct of unsigned integers."""
+    if ty['s'].startswith('(') and all(x.strip() in INT_TYS for x in ty['s'].strip('()').split(',') if x.strip()):
+        return True
+    adt = ctx.prog.adts.get(norm(ty.get('adt') or ''))
+    if adt and adt['kind'] == 'Struct' and adt['variants'][0]['fields']:
+        return all(f['ty']['s'] in INT_TYS for f in adt['variants'][0]['fields'])
+    return False
+
+
 def accumulator_summary(ctx, nid):
-    """For a function returning a tuple of integers: which component accumulates removed entry counts
-    (+1 per removal) and which the removed weights.  {'count': idx, 'weight': idx} or None."""
+    """For a function returning a record of integers (tuple or struct): which component accumulates removed entry counts
+    (+1 per removal) and which the removed weights.  {'count': key, 'weight': key} or None."""
     key = ('accsum', nid)
     if key in ctx.cache:
         return ctx.cache[key]
     res = None
     b = ctx.prog.bodies.get(nid)
-    if b is not None and b.locals[0]['ty']['s'].startswith('(u64') or (b is not None and b.locals[0]['ty'].get('tuple') == 2):
+    if b is not None and _is_int_record(ctx, b.locals[0]['ty']):
         res = {}
         for p in _paths(ctx, nid):
-            comps = _ret_components(p.ret)
+            comps = _ret_components(p.ret, ctx)
             if not comps:
                 continue
-            rem = [e for e in p.events if e[0] == 'call' and e[1] in HASHMAP_REMOVE]
+            keys = _ret_keys(ctx, nid, len(comps))
             for i, c in enumerate(comps):
                 f = lin(c)
                 if any(s == 1 and is_one(a) for s, a in f):
-                    res['count'] = i
+                    res['count'] = keys[i]
                 if any(isinstance(strip_cast(a), tuple) and any(
-                        isinstance(x, tuple) and x and x[0] == 'fld' and x[2] == 'policy_weight' for x in subterms(a)) for s, a in f):
-                    res['weight'] = i
+                        isinstance(x, tuple) and x and x[0] in ('fld', 'call') and str(x[2] if x[0] == 'fld' else x[1]).split('::')[-1] == 'policy_weight'
+                        for x in subterms(a)) for s, a in f):
+                    res['weight'] = keys[i]
     ctx.cache[key] = res
     return res
+
+
+def _inserted_weights(ctx, p):
+    """policy_weight terms of the entries handed to HashMap::insert on this path."""
+    out = set()
+    for e in p.events:
+        if e[0] == 'call' and e[1] == 'std::collections::HashMap::insert':
+            for a in e[2]:
+                for x in subterms(a):
+                    if isinstance(x, tuple) and x and x[0] == 'aggr' and str(x[1]).endswith('EntryInfo'):
+                        adt = ctx.prog.adts.get(norm(str(x[1])))
+                        if adt:
+                            names = [f['name'] for f in adt['variants'][0]['fields']]
+                            if 'policy_weight' in names and names.index('policy_weight') < len(x[3]):
+                                out.add(strip_cast(x[3][names.index('policy_weight')]))
+    return out
 
 
 def rule_flow_unsync(ctx):
@@ -123,23 +168,30 @@ def rule_flow_unsync(ctx):
     R = get_roles(ctx)
     fns = sorted(n for n in prog.bodies if n.startswith(UNSYNC_CACHE + '::') and prog.bodies[n].kind != 'closure')
     n_rem = n_adm = n_acc = 0
-    for nid in fns:
+    inset = set(fns)
+    pending = defaultdict(list)
+    opaque = defaultdict(set)
+    analysed = set()
+
+    def pend(nid_, *a, **kw):
+        pending[nid_].append((a, kw))
+    def analyse(nid, paths):
+        nonlocal n_rem, n_adm, n_acc
         b = prog.bodies[nid]
-        reach_ext = set()
-        for x in [nid] + prog.closures_of.get(nid, []):
-            reach_ext |= R.ext_calls.get(x, set())
-        interesting = reach_ext & (HASHMAP_REMOVE | {'std::collections::HashMap::insert'}) or \
-            any(accumulator_summary(ctx, c) for c in prog.callees(nid) if c in prog.bodies and c.startswith(UNSYNC_CACHE))
-        if not interesting and not (nid == named(ctx, 'unsync.update_handler')):
-            continue
-        paths = _paths(ctx, nid)
+        analysed.add(nid)
+        pending[nid] = []
+        opaque[nid] = set()
+        for p in paths:
+            for e in p.events:
+                if e[0] == 'call' and e[1] in inset:
+                    opaque[nid].add(e[1])
         accs_self = accumulator_summary(ctx, nid)
         for p in paths:
             kws, ws = final_writes(p, 'weighted_size')
             kec, ec = final_writes(p, 'entry_count')
             fws = lin(ws) if ws is not None else []
             fec = lin(ec) if ec is not None else []
-            comps = _ret_components(p.ret) or []
+            comps = _ret_components(p.ret, ctx) or []
             # ---- removals
             for e in p.events:
                 if e[0] != 'call' or e[1] not in HASHMAP_REMOVE:
@@ -150,7 +202,7 @@ def rule_flow_unsync(ctx):
                     ok = ws == ('c', 0) and ec == ('c', 0)
                     r.instance(function=nid, event='clear', weighted_size=fmt(ws) if ws else None, entry_count=fmt(ec) if ec else None, ok=ok)
                     if not ok:
-                        r.violate(nid, 'clear-without-reset', 'HashMap::clear',
+                        pend(nid, 'clear-without-reset', 'HashMap::clear',
                                   'the map is cleared but %s not reset to 0' % ('weighted_size is' if ws != ('c', 0) else 'entry_count is'),
                                   where=ctx.where(nid, e[3]), expected='weighted_size = 0 and entry_count = 0 after clear()')
                     continue
@@ -171,7 +223,7 @@ def rule_flow_unsync(ctx):
                     n_rem += 1
                     r.instance(function=nid, event='discarding-removal', key=fmt(keyarg) if keyarg else None, own_candidate_rejection=ok)
                     if not ok:
-                        r.violate(nid, 'removal-result-discarded', 'HashMap::remove',
+                        pend(nid, 'removal-result-discarded', 'HashMap::remove',
                                   'a map entry is removed and dropped without giving back its weight / count', where=ctx.where(nid, e[3]),
                                   expected='use the removed entry to adjust entry_count and weighted_size')
                     continue
@@ -188,7 +240,7 @@ def rule_flow_unsync(ctx):
                     ws_ok = ws_ok or aw
                     ec_ok = ec_ok or ac
                     via = 'accumulator'
-                if not ws_ok and nid == named(ctx, 'unsync.insert_handler'):
+                if not ws_ok:
                     # victims: the aggregate computed by the admission scan is subtracted instead
                     ws_ok = any(s == -1 and isinstance(a, tuple) and a and a[0] == 'payload' and 'Admitted' in str(a[2]) for s, a in fws)
                     via = 'admission-aggregate'
@@ -196,12 +248,12 @@ def rule_flow_unsync(ctx):
                            entry_count=fmt(ec)[:60] if ec else None, weight_given_back=ws_ok, count_given_back=ec_ok)
                 if not ws_ok:
                     wrong = [fmt(a)[:50] for s, a in fws if s == -1] or [fmt(c)[:50] for c in comps]
-                    r.violate(nid, 'weight-not-given-back', 'weighted_size',
+                    pend(nid, 'weight-not-given-back', 'weighted_size',
                               'a path removes a map entry but its weight does not reach weighted_size with sign - (what is subtracted: %s)' % wrong,
                               where=ctx.where(nid, e[3]), path=[fmt(c) + ' == ' + str(v) for c, v in p.conds][:8],
                               expected='weighted_size -= removed.policy_weight (directly or via an additive accumulator)')
                 if not ec_ok:
-                    r.violate(nid, 'count-not-given-back', 'entry_count',
+                    pend(nid, 'count-not-given-back', 'entry_count',
                               'a path removes a map entry but entry_count is not decremented by 1', where=ctx.where(nid, e[3]),
                               path=[fmt(c) + ' == ' + str(v) for c, v in p.conds][:8], expected='entry_count -= 1 per removed entry')
             # ---- accumulator-returning callees: subtract component-wise
@@ -220,11 +272,11 @@ def rule_flow_unsync(ctx):
                 # closures returning the tuple straight through (evict_expired's rm_expired_ao) are inlined, so res is the callee's
                 r.instance(function=nid, event='accumulator-call', callee=e[1], weight_component_subtracted=ws_ok, count_component_subtracted=ec_ok)
                 if not ws_ok:
-                    r.violate(nid, 'accumulator-weight-not-applied', e[1].split('::')[-1],
+                    pend(nid, 'accumulator-weight-not-applied', e[1].split('::')[-1],
                               'the removed-weight component returned by %s is not subtracted from weighted_size (subtracted: %s)' % (
                                   e[1], [fmt(a)[:50] for s, a in fws if s == -1]), where=ctx.where(nid, e[3]))
                 if not ec_ok:
-                    r.violate(nid, 'accumulator-count-not-applied', e[1].split('::')[-1],
+                    pend(nid, 'accumulator-count-not-applied', e[1].split('::')[-1],
                               'the removed-count component returned by %s is not subtracted from entry_count (subtracted: %s)' % (
                                   e[1], [fmt(a)[:50] for s, a in fec if s == -1]), where=ctx.where(nid, e[3]))
             # ---- admissions
@@ -232,14 +284,18 @@ def rule_flow_unsync(ctx):
             if adm:
                 n_adm += 1
                 ws_ok = any(s == 1 and isinstance(strip_cast(a), tuple) and strip_cast(a)[0] == 'param' for s, a in fws)
+                if not ws_ok:
+                    # analysed from the entry point (handler inlined): the candidate weight is the weight stored in the inserted entry
+                    iw = _inserted_weights(ctx, p)
+                    ws_ok = any(s == 1 and strip_cast(a) in iw for s, a in fws)
                 ec_ok = has_atom(fec, 1, is_one)
                 r.instance(function=nid, event='admission', weighted_size=fmt(ws)[:90] if ws else None, entry_count=fmt(ec)[:60] if ec else None,
                            weight_added=ws_ok, count_added=ec_ok)
                 if not ws_ok:
-                    r.violate(nid, 'admission-weight-not-added', 'weighted_size', 'an admission path does not add the candidate weight to weighted_size',
+                    pend(nid, 'admission-weight-not-added', 'weighted_size', 'an admission path does not add the candidate weight to weighted_size',
                               where=ctx.where(nid, adm[0][3]), expected='weighted_size += policy_weight')
                 if not ec_ok:
-                    r.violate(nid, 'admission-count-not-added', 'entry_count', 'an admission path does not add 1 to entry_count',
+                    pend(nid, 'admission-count-not-added', 'entry_count', 'an admission path does not add 1 to entry_count',
                               where=ctx.where(nid, adm[0][3]), expected='entry_count += 1')
         # ---- update role: replaces an entry in place
         if nid == named(ctx, 'unsync.update_handler') or (b.argc >= 5 and 'ValueEntry' in b.locals[b.argc]['ty']['s'] and not b.locals[b.argc]['ty']['s'].startswith('&')):
@@ -262,13 +318,66 @@ def rule_flow_unsync(ctx):
                 if same_weight and ws is None:
                     continue
                 if not (sub_old and add_new and same):
-                    r.violate(nid, 'update-weight', 'weighted_size', 'an in-place update does not apply  -old_weight +new_weight  with the weight it stores in the entry',
+                    pend(nid, 'update-weight', 'weighted_size', 'an in-place update does not apply  -old_weight +new_weight  with the weight it stores in the entry',
                               where=ctx.where(nid), expected='weighted_size = weighted_size - old.policy_weight + new_weight; entry.policy_weight = new_weight')
                 if ec is not None:
-                    r.violate(nid, 'update-count', 'entry_count', 'an in-place update changes entry_count', where=ctx.where(nid))
-    if (n_rem < 9 or n_adm < 2 or n_acc < 2) and not r.violations:
-        raise CheckFailure('FLOW-counters(unsync): analysed only %d removal / %d admission / %d accumulator events (expected >= 9 / 2 / 2)' % (n_rem, n_adm, n_acc))
-    r.floor = ((9, 2, 2), 'removal / admission / accumulator events')
+                    pend(nid, 'update-count', 'entry_count', 'an in-place update changes entry_count', where=ctx.where(nid))
+    def interesting(nid):
+        reach_ext = set()
+        for x in prog.reachable_from([nid]):
+            if x in inset or (prog.bodies[x].root in inset):
+                reach_ext |= R.ext_calls.get(x, set())
+        return bool(reach_ext & (HASHMAP_REMOVE | {'std::collections::HashMap::insert'})) or \
+            any(accumulator_summary(ctx, c) for c in prog.callees(nid) if c in prog.bodies and c.startswith(UNSYNC_CACHE)) or \
+            nid == named(ctx, 'unsync.update_handler')
+    for nid in fns:
+        if interesting(nid):
+            analyse(nid, _paths(ctx, nid))
+    # A private helper that does only part of the bookkeeping (links the candidate, removes the victims, ...) is not judged on its own:
+    # its events are re-judged, in context, on the paths of every caller with the helper inlined.  Its own verdict stands when it is an
+    # entry point (public, or called from outside this impl) or when some caller could not inline it.
+    pub = set(prog.public_api())
+    callers_in = defaultdict(set)
+    for nid in fns:
+        for c in prog.callers().get(nid, ()):
+            root = prog.bodies[c].root if (c in prog.bodies and prog.bodies[c].kind == 'closure' and prog.bodies[c].root) else c
+            callers_in[nid].add(root)
+
+    def is_entry(nid):
+        cs = callers_in.get(nid, set()) - {nid}
+        return nid in pub or not cs or any(c not in inset for c in cs)
+    force = set()
+    for _round in range(4):
+        new = {nid for nid, items in pending.items() if items and not is_entry(nid)} - force
+        if not new:
+            break
+        force |= new
+        redo = sorted(g for g in fns if g not in force and interesting(g) and (prog.reachable_from([g]) & force))
+        for g in redo:
+            sx = ctx.symex(inline_depth=6, loop_visits=2, inline_pred=lambda n_, b_, d_: True if n_ in force else None)
+            try:
+                ps = [p for p in sx.run(g) if not p.diverged]
+            except PathLimit:
+                raise CheckFailure('FLOW-counters(unsync): path limit exceeded in %s with %s inlined' % (g, sorted(force)))
+            analyse(g, ps)
+    def rejudged(f, stack):
+        cs_ = callers_in.get(f, set()) - {f}
+        if f not in force or not cs_ or f in stack:
+            return False
+        return all((c in force and rejudged(c, stack + (f,))) or (c not in force and c in analysed and f not in opaque[c]) for c in cs_)
+    for nid, items in sorted(pending.items()):
+        if not items:
+            continue
+        cs = callers_in.get(nid, set()) - {nid}
+        if is_entry(nid) or not rejudged(nid, ()):
+            for a_, kw_ in items:
+                r.violate(nid, *a_, **kw_)
+        else:
+            r.notes.append('%s: %d partial-bookkeeping verdict(s) re-judged in its callers %s' % (nid, len(items), sorted(cs)))
+    if (n_rem < 9 or n_adm < 2) and not r.violations:
+        raise CheckFailure('FLOW-counters(unsync): analysed only %d removal / %d admission events (expected >= 9 / 2)' % (n_rem, n_adm))
+    r.floor = ((9, 2), 'removal / admission events')
+    r.notes.append('accumulator call sites judged component-wise: %d' % n_acc)
     # AUTH-counter-writers: only functions analysed above write the counters
     for f in ('entry_count', 'weighted_size'):
         for w in ctx.eff.who_has(('write', UNSYNC_CACHE, f)):
